@@ -22,9 +22,19 @@ RULE = ("seeded histories: constructor (ranges/pixel from {exact multiples, non-
         "0.3/0.1 0.7/0.1 1/3, k*ps for random doubles ps, random doubles, int arguments, large offsets}) followed by "
         "3-10 operations (near-whole-quotient class: extent/pixel_size = k*(1 +- 1e-4..1e-14), k up to 300, in constructor, setters, "
         "pixel-size changes and fit data) from {birth_range=, pers_range=, pixel_size=, fit(one diagram | list, skew on/off)}; after "
-        "every step all attributes, meshes, transform shape and a narrow-kernel landing pixel are recorded; a case "
+        "every step all attributes, meshes, transform shape and a narrow-kernel landing pixel are recorded; "
+        "shared-argument histories (cls shared): fits draw their diagrams from a pool of 1-3 diagrams interned by content, so the SAME "
+        "array objects (layouts: C, Fortran order, strided view of a wider table, read-only, nested lists) are repeated inside one "
+        "fit list (bootstrap resample), fitted again after pixel-size / range assignments, with skew on and off, and handed to "
+        "transform right after the fit (images must have the reported resolution and, through a narrow kernel, put each fitted point's "
+        "mass in the pixel the reported geometry assigns to it); composite cases (hist:imagers): 2-3 imagers with different pixel "
+        "sizes configured and fitted one after the other in one process on the same array objects; fault histories (+werr): "
+        "operations run under warnings.simplefilter('error'), a Warning raised half-way is caught and the imager is used on - "
+        "nothing is asked of the interrupted step, every later successful operation must restore the full invariant; everything "
+        "persim returns from transform is overwritten after reading (history.scribble); the predicate only ever reads the "
+        "case's own JSON data, never the arrays persim saw; a case "
         "is non-trivial when it has >= 3 operations and at least one requested extent is not an exact multiple of "
-        "the pixel size in exact arithmetic; distinct = distinct JSON input")
+        "the pixel size in exact arithmetic (a composite case: at least two such imagers); distinct = distinct JSON input")
 TRUSTED_BASE = [
     "Coq 8.16.1 kernel, vm_compute (no native_compute)",
     "PrimFloat primitives (add sub mul div ltb leb eqb of_uint63, Prim2SF) and their stdlib specification axioms",
@@ -34,13 +44,18 @@ TRUSTED_BASE = [
     "reading of the Python subset (attribute assignments, tuples, + - * /, `/ 2` as halving, int(np.ceil(.)), "
     "np.linspace(lo, hi, n, endpoint=False), calls of self methods / property setters inlined)",
     "model of numpy.linspace(lo, hi, n, endpoint=False) as i*((hi-lo)/n)+lo, np.ceil/int via Prim2SF",
-    "harness: generator, float->hex printer, verdict parser, Fraction predicate",
+    "harness: generator, float->hex printer, verdict parser, Fraction predicate; interning of argument objects and composite "
+    "cases (harness/history.py); composite cases are tied to the model imager by imager; the images of the fitted diagrams "
+    "and interrupted (warning-as-error) steps are judged by the predicate only (the model has no exceptions: an interrupted "
+    "step shows as a disagreement); shrink candidates are pre-filtered in one interpreter, core re-confirms each",
 ]
 ASSUMPTIONS = [
     "the universal theorems are over exact rational arithmetic; on binary64 the repaired code is tied bit for bit "
     "to the float instance and the invariant is TESTED within a %d-ulp tolerance (of the largest magnitude involved), not proved" % 4,
     "numpy semantics of linspace / ceil / min / max are as modelled; resolutions below 2^53",
     "ranges with hi < lo and non-positive pixel sizes are outside the property's quantifier",
+    "after an operation interrupted by a warning turned into an error, 'the ranges covered before' / 'the untouched axis stays' "
+    "are not checked for the next operation (undefined state); self-consistency and the assigned axis are",
 ]
 COQ_DEPS = ["Corr/ImagerCorr.vo"]
 
@@ -807,20 +822,22 @@ def _smaller(c):
     for k in range(n - 1, -1, -1):          # drop one operation
         d = dict(c); d["ops"] = c["ops"][:k] + c["ops"][k + 1:]; d["uv"] = c["uv"][:k + 1] + c["uv"][k + 2:]
         yield d
+    # fitted data is only ever reduced to data that still spans a positive extent (the property's quantifier)
     for k, o in enumerate(c["ops"]):
         if o["op"] == "fit":
             for i, dg in enumerate(o["dgms"]):
-                if len(o["dgms"]) > 1:
+                nd = o["dgms"][:i] + o["dgms"][i + 1:]
+                if len(o["dgms"]) > 1 and _spans([q for x in nd for q in x]):
                     d = dict(c); d["ops"] = list(c["ops"])
-                    d["ops"][k] = dict(o, dgms=o["dgms"][:i] + o["dgms"][i + 1:], single=False)
+                    d["ops"][k] = dict(o, dgms=nd, single=False)
                     yield d
     for k, o in enumerate(c["ops"]):
         if o["op"] == "fit" and not c.get("share"):
             for i, dg in enumerate(o["dgms"]):
                 for j in range(len(dg)):
-                    if len(dg) > 1:
+                    nd = [list(x) for x in o["dgms"]]; nd[i] = dg[:j] + dg[j + 1:]
+                    if len(dg) > 1 and _spans([q for x in nd for q in x]):
                         d = dict(c); d["ops"] = list(c["ops"])
-                        nd = [list(x) for x in o["dgms"]]; nd[i] = dg[:j] + dg[j + 1:]
                         d["ops"][k] = dict(o, dgms=nd)
                         yield d
     for k, o in enumerate(c["ops"]):
